@@ -17,7 +17,7 @@ NOTE_SEM = ("Trusted base: TLC's evaluation of specs/Sem.tla (reference semantic
             "constants; parameter values are generic finite valuations, not all reals.")
 
 
-GAUSS_REL = {"C03": "marginal", "C04": "product", "C07": "conjugate"}
+GAUSS_REL = {"C03": "marginal", "C04": "product", "C07": "conjugate", "C10": "shared"}
 
 
 def _fold_model_hook(tier):
